@@ -233,7 +233,7 @@ def run_case(case):
     def ev(form, orig, fn, semantic):
         e = {"form": form, "orig": orig, "back": dict(C.EMPTY), "exc": "none", "exact": True, "eq": True, "ok": True, "hints": [], "names": [], "g": 0,
              "groups": ["serial"], "_strings": None, "eqok": True, "bits": False, "infeas": dict(H.NONE), "rounded": bool(d["wild"]),
-             "file": {"names_w": [], "names_r": [], "kinds_w": [], "kinds_r": []}}
+             "file": {"names_w": [], "names_r": [], "kinds_w": [], "kinds_r": []}, "feas": dict(H.NONE)}
         try:
             back, extra = fn()
             e["back"] = C.pcontract(back)
@@ -250,6 +250,11 @@ def run_case(case):
                 if ic is not None:
                     ic = dict(ic, lam={str(idx[int(k) - 1] + 1): v for k, v in ic["lam"].items()})
                     e["infeas"] = H.strip(ic)
+                elif len(idx) == len(allrows):
+                    # no certificate that nothing satisfies the contract: a refusal is a violation only with a point that satisfies every row
+                    fp = H.feasible_point(allrows, e["names"])
+                    if fp is not None:
+                        e["feas"] = H.strip(fp)
             evs.append(e)
             return
         e["ok"] = C.contract_ok(e["back"]) and C.contract_ok(orig)
